@@ -490,6 +490,21 @@ class H2Connection:
 
         return s
 
+    def _process_local_input(self, input_):
+        """
+        Feed the connection state machine an input that stems from a call made
+        by the user rather than from a received frame. If the state machine
+        refuses it nothing is sent and the peer knows nothing about it, so the
+        connection stays in the state it was in: a mistaken call must not
+        silently close a connection that the peer is still using.
+        """
+        state = self.state_machine.state
+        try:
+            return self.state_machine.process_input(input_)
+        except ProtocolError:
+            self.state_machine.state = state
+            raise
+
     def _abandon_new_stream(self, stream_id, highest_stream_id):
         """
         Forget a stream that was created for a call which then failed before
@@ -504,7 +519,7 @@ class H2Connection:
         Must be called for both clients and servers.
         """
         self.config.logger.debug("Initializing connection")
-        self.state_machine.process_input(ConnectionInputs.SEND_SETTINGS)
+        self._process_local_input(ConnectionInputs.SEND_SETTINGS)
         if self.config.client_side:
             preamble = b'PRI * HTTP/2.0\r\n\r\nSM\r\n\r\n'
         else:
@@ -802,7 +817,7 @@ class H2Connection:
                     (max_open_streams, self.open_outbound_streams)
                 )
 
-        self.state_machine.process_input(ConnectionInputs.SEND_HEADERS)
+        self._process_local_input(ConnectionInputs.SEND_HEADERS)
         new_stream = stream_id not in self.streams
         highest_stream_id = self.highest_outbound_stream_id
         if self.config.client_side:
@@ -891,7 +906,7 @@ class H2Connection:
                 (frame_size, self.max_outbound_frame_size)
             )
 
-        self.state_machine.process_input(ConnectionInputs.SEND_DATA)
+        self._process_local_input(ConnectionInputs.SEND_DATA)
         frames = self.streams[stream_id].send_data(
             data, end_stream, pad_length=pad_length
         )
@@ -917,7 +932,7 @@ class H2Connection:
         :returns: Nothing
         """
         self.config.logger.debug("End stream ID %d", stream_id)
-        self.state_machine.process_input(ConnectionInputs.SEND_DATA)
+        self._process_local_input(ConnectionInputs.SEND_DATA)
         frames = self._get_stream_by_id(stream_id).end_stream()
         self._prepare_for_sending(frames)
 
@@ -945,7 +960,7 @@ class H2Connection:
                 self.MAX_WINDOW_INCREMENT
             )
 
-        self.state_machine.process_input(ConnectionInputs.SEND_WINDOW_UPDATE)
+        self._process_local_input(ConnectionInputs.SEND_WINDOW_UPDATE)
 
         if stream_id is not None:
             stream = self._get_stream_by_id(stream_id)
@@ -998,7 +1013,7 @@ class H2Connection:
         if not self.remote_settings.enable_push:
             raise ProtocolError("Remote peer has disabled stream push")
 
-        self.state_machine.process_input(ConnectionInputs.SEND_PUSH_PROMISE)
+        self._process_local_input(ConnectionInputs.SEND_PUSH_PROMISE)
         stream = self._get_stream_by_id(stream_id)
 
         # We need to prevent users pushing streams in response to streams that
@@ -1038,7 +1053,7 @@ class H2Connection:
         if not isinstance(opaque_data, bytes) or len(opaque_data) != 8:
             raise ValueError("Invalid value for ping data: %r" % opaque_data)
 
-        self.state_machine.process_input(ConnectionInputs.SEND_PING)
+        self._process_local_input(ConnectionInputs.SEND_PING)
         f = PingFrame(0)
         f.opaque_data = opaque_data
         self._prepare_for_sending([f])
@@ -1061,7 +1076,7 @@ class H2Connection:
         :returns: Nothing
         """
         self.config.logger.debug("Reset stream ID %d", stream_id)
-        self.state_machine.process_input(ConnectionInputs.SEND_RST_STREAM)
+        self._process_local_input(ConnectionInputs.SEND_RST_STREAM)
         stream = self._get_stream_by_id(stream_id)
         frames = stream.reset_stream(error_code)
         self._prepare_for_sending(frames)
@@ -1084,7 +1099,7 @@ class H2Connection:
         :returns: Nothing
         """
         self.config.logger.debug("Close connection")
-        self.state_machine.process_input(ConnectionInputs.SEND_GOAWAY)
+        self._process_local_input(ConnectionInputs.SEND_GOAWAY)
 
         # Additional_data must be bytes
         if additional_data is not None:
@@ -1111,7 +1126,7 @@ class H2Connection:
         self.config.logger.debug(
             "Update connection settings to %s", new_settings
         )
-        self.state_machine.process_input(ConnectionInputs.SEND_SETTINGS)
+        self._process_local_input(ConnectionInputs.SEND_SETTINGS)
 
         # Check every value before applying any of them: a call that raises
         # must not leave some of its settings queued for the next ACK.
@@ -1201,7 +1216,7 @@ class H2Connection:
                 "Clients cannot advertise alternative services"
             )
 
-        self.state_machine.process_input(
+        self._process_local_input(
             ConnectionInputs.SEND_ALTERNATIVE_SERVICE
         )
 
@@ -1284,7 +1299,7 @@ class H2Connection:
         if not self.config.client_side:
             raise RFC1122Error("Servers SHOULD NOT prioritize streams.")
 
-        self.state_machine.process_input(
+        self._process_local_input(
             ConnectionInputs.SEND_PRIORITY
         )
 
